@@ -104,6 +104,9 @@ def parse_output(text, harnesses):
             if r["covers"] and r["covers"][0] != r["covers"][1]:
                 r["status"] = "undecided"
                 r["reason"] = "vacuity: %d of %d cover points reached" % r["covers"]
+        elif "CBMC timed out" in body or "timed out" in body:
+            r["status"] = "undecided"
+            r["reason"] = "harness timeout"
         elif "VERIFICATION:- FAILED" in body:
             real = [f for f in fcs if classify_check(f) == "violation"]
             if real:
